@@ -22,16 +22,40 @@ type crashCtx struct {
 //
 //go:norace
 func (w *World) RecoverCrash(inst *Instance, nextCrash func(incarnation int) int) error {
+	t := w.Plan
 	for tries := 0; tries < 6; tries++ {
 		inst.Crash()
 		w.Stat("probe.crash_recovered")
+		// the node keeps following its peers: in a third of the recoveries the
+		// chain moves while the process is down and while it starts again
+		// (catch-up and queued announcements overlap, see StartMoving)
+		moving := t.Bool(33)
+		if moving {
+			for k := t.Int(3); k > 0; k-- {
+				if t.Bool(70) {
+					w.MineOnTip(t, 70)
+				} else {
+					w.Fork(t, 1+t.Int(3), 1+t.Int(2), 50, 0)
+				}
+				w.Stat("op.env_while_down")
+			}
+		}
 		if err := inst.Open(); err != nil {
 			return fmt.Errorf("reopen after crash: %w", err)
 		}
 		if nextCrash != nil {
 			inst.DB.CrashAtCommit = nextCrash(inst.Opens)
 		}
-		err := inst.StartSolo()
+		var err error
+		if moving {
+			err = inst.StartMoving(t, 2)
+			if errors.Is(err, ErrCrashed) {
+				err = nil
+			}
+			w.Stat("probe.recovery_while_chain_moves")
+		} else {
+			err = inst.StartSolo()
+		}
 		if w.S.CrashRequested || inst.Dead {
 			w.Stat("probe.crash_during_restart")
 			continue
